@@ -22,10 +22,11 @@ import (
 	"github.com/gogpu/naga/hlsl"
 	"github.com/gogpu/naga/msl"
 	"github.com/gogpu/naga/spirv"
+	"github.com/gogpu/naga/wgsl"
 )
 
 func main() {
-	common.Main(map[string]common.Mode{"diag": doDiag})
+	common.Main(map[string]common.Mode{"diag": doDiag, "lex": doLex})
 }
 
 var reParse = regexp.MustCompile(`line (-?\d+), column (-?\d+)`)
@@ -45,8 +46,56 @@ func position(msg string) any {
 	return nil
 }
 
+// fingerprint of the real lexer's token stream (lexemes and positions), so that the
+// generator's by-construction token positions are checked on every program
+func lexFingerprint(src string, res map[string]any) {
+	toks, err := wgsl.VerifTokenize(src)
+	if err != nil {
+		res["lex_err"] = err.Error()
+		return
+	}
+	var h uint64 = 14695981039346656037
+	mix := func(b byte) { h ^= uint64(b); h *= 1099511628211 }
+	n := 0
+	for _, t := range toks {
+		if t.Name == "EOF" {
+			res["eof_pos"] = []int{t.Line, t.Column}
+			continue
+		}
+		n++
+		for i := 0; i < len(t.Lexeme); i++ {
+			mix(t.Lexeme[i])
+		}
+		mix(0)
+		for _, c := range strconv.Itoa(t.Line) {
+			mix(byte(c))
+		}
+		mix(':')
+		for _, c := range strconv.Itoa(t.Column) {
+			mix(byte(c))
+		}
+		mix(1)
+	}
+	res["ntok"] = n
+	res["lex_fp"] = strconv.FormatUint(h, 16)
+}
+
+func doLex(j *common.Job, res map[string]any) {
+	toks, err := wgsl.VerifTokenize(j.Source())
+	if err != nil {
+		res["lex_err"] = err.Error()
+		return
+	}
+	out := make([][]any, 0, len(toks))
+	for _, t := range toks {
+		out = append(out, []any{t.Lexeme, t.Name, t.Line, t.Column})
+	}
+	res["toks"] = out
+}
+
 func doDiag(j *common.Job, res map[string]any) {
 	src := j.Source()
+	lexFingerprint(src, res)
 	// 1. the one-call API
 	func() {
 		defer func() {
